@@ -182,7 +182,8 @@ func c14Run(run *ev.Run) {
 	}
 	var total seqx.Stats
 	for i, spec := range []world.Spec{{Store: "memory", Forward: true, Logout: true}, {Store: "redis", Forward: true, Logout: true},
-		{Store: "memory", Forward: true, Logout: true, Discovery: true, NoLogoutRedirect: true}, {Store: "memory", Logout: true, Discovery: true}} {
+		{Store: "memory", Forward: true, Logout: true, Discovery: true, NoLogoutRedirect: true}, {Store: "memory", Logout: true, Discovery: true},
+		{Store: "memory", Forward: true, Logout: true, Discovery: true, RichDiscovery: true}} {
 		o := c14Opts(run.Tier, spec)
 		if spec.Discovery {
 			// discovery worlds: the plain alphabet (no faults), one level deeper is not needed: login, use, logout
